@@ -43,15 +43,16 @@ CmacBlocks(M) ==
     IN  [ blocks   |-> [i \in 1..n |-> IF i < n \/ complete THEN Blk(i) ELSE Pad(Blk(i))],
           complete |-> complete ]
 
-Cmac(E(_, _), K, M) ==
-    LET L    == E(K, Zeros(16))
-        K1   == Dbl(L)
-        K2   == Dbl(K1)
-        B    == CmacBlocks(M)
-        n    == Len(B.blocks)
+\* RFC 4493 2.4 steps 5-7, the sub keys K1, K2 (2.3) and the blocks given
+CmacWith(E(_, _), K, K1, K2, B) ==
+    LET n    == Len(B.blocks)
         Last == XorB(B.blocks[n], IF B.complete THEN K1 ELSE K2)
         X[i \in 0..(n - 1)] == IF i = 0 THEN Zeros(16) ELSE E(K, XorB(X[i - 1], B.blocks[i]))
     IN  E(K, XorB(X[n - 1], Last))
+\* AES-CMAC_K(M): L = E(K, 0^128), K1 = L * x, K2 = K1 * x
+\* (the singleton sets are an evaluation device only: they make TLC compute K, L and the blocks once)
+Cmac(E(_, _), K, M) ==
+    CHOOSE t \in { CmacWith(E, k, Dbl(L), Dbl(Dbl(L)), B) : k \in {K}, L \in {E(K, Zeros(16))}, B \in {CmacBlocks(M)} } : TRUE
 
 -----------------------------------------------------------------------------
 (* LE legacy pairing, Vol 3 Part H 2.2.3 / 2.2.4                                                    *)
@@ -96,11 +97,13 @@ SessionKey(E(_, _), LTK, SKDm, SKDs) == E(LTK, SKDs \o SKDm)
 -----------------------------------------------------------------------------
 (* P-256 public key validity (Vol 3 Part H 2.3.5.6.1: the coordinates must be a point of the curve). *)
 (* TLC has 32 bit integers, so numbers are little endian base 256 digit sequences and the modular    *)
-(* equation  y^2 + 3x = x^3 + b  (mod p)  is decided from an untrusted division certificate:        *)
-(*      y^2 + 3x = ql * p + rl,    x^3 + b = qr * p + rr,    rl, rr < p                             *)
-(* The two identities are CHECKED here over the integers (schoolbook products, carry propagation);   *)
-(* by uniqueness of division the point is on the curve iff rl = rr.  Whoever computes the            *)
-(* certificate is not trusted: a wrong certificate fails CertOK.                                     *)
+(* equation  y^2 + 3x = x^3 + b  (mod p)  is decided from an UNTRUSTED certificate:                  *)
+(*      y^2 + 3x = ql * p + rl,     x * x = x2,     x2 * x + b = qr * p + rr,     rl, rr < p         *)
+(* Each identity is CHECKED here over the integers: both sides are expanded into coefficient         *)
+(* sequences (schoolbook products) and the certificate supplies the carry chain c that turns one     *)
+(* into the other: L[i] - R[i] + c[i] = 256 * c[i+1], c[1] = c[n+1] = 0, hence                      *)
+(* sum (L[i] - R[i]) 256^(i-1) telescopes to 0.  By uniqueness of division the point is on the curve *)
+(* iff rl = rr.  Whoever computes the certificate is not trusted: a wrong one fails CertOK.          *)
 P256p == Rev(<<\hFF, \hFF, \hFF, \hFF, \h00, \h00, \h00, \h01, \h00, \h00, \h00, \h00, \h00, \h00, \h00, \h00,
                \h00, \h00, \h00, \h00, \hFF, \hFF, \hFF, \hFF, \hFF, \hFF, \hFF, \hFF, \hFF, \hFF, \hFF, \hFF>>)
 P256b == Rev(<<\h5A, \hC6, \h35, \hD8, \hAA, \h3A, \h93, \hE7, \hB3, \hEB, \hBD, \h55, \h76, \h98, \h86, \hBC,
@@ -115,22 +118,23 @@ Conv(a, b) ==
         IN  S[hi]]
 AddC(a, b)  == [i \in 1..Max2(Len(a), Len(b)) |-> (IF i <= Len(a) THEN a[i] ELSE 0) + (IF i <= Len(b) THEN b[i] ELSE 0)]
 Scale(c, a) == [i \in 1..Len(a) |-> c * a[i]]
-\* n digits of a coefficient sequence, Bottom if it does not fit
-Norm(c, n) ==
-    LET cc(i) == IF i <= Len(c) THEN c[i] ELSE 0
-        carry[i \in 0..n] == IF i = 0 THEN 0 ELSE (cc(i) + carry[i - 1]) \div 256
-    IN  IF carry[n] # 0 \/ Len(c) > n THEN Bottom ELSE [i \in 1..n |-> (cc(i) + carry[i - 1]) % 256]
+At(s, i)    == IF i <= Len(s) THEN s[i] ELSE 0
+\* the coefficient sequences L and R denote the same number; c is the carry chain that proves it
+\* (the singleton sets are an evaluation device only: TLC computes the two sequences once)
+SameNumber(L0, R0, c) ==
+    \E L \in {L0}, R \in {R0} :
+        LET n == Max2(Len(L), Len(R))
+        IN  /\ Len(c) = n + 1 /\ c[1] = 0 /\ c[n + 1] = 0
+            /\ \A i \in 1..n : c[i] \in -16777216..16777216 /\ At(L, i) - At(R, i) + c[i] = 256 * c[i + 1]
 Less(a, b)  == \E i \in 1..Len(a) : a[i] < b[i] /\ \A j \in (i + 1)..Len(a) : a[j] = b[j]
 
-\* x, y: 32 digits each.  cert = [ql |-> 33 digits, rl |-> 32, qr |-> 65, rr |-> 32]
+\* x, y: 32 digits each.  cert = [ql: 33 digits, rl: 32, qr: 65, rr: 32, x2: 64, ca, cb, cc: carry chains]
 CertOK(x, y, cert) ==
-    /\ IsOctets(cert.ql, 33) /\ IsOctets(cert.rl, 32) /\ IsOctets(cert.qr, 65) /\ IsOctets(cert.rr, 32)
+    /\ IsOctets(cert.ql, 33) /\ IsOctets(cert.rl, 32) /\ IsOctets(cert.qr, 65) /\ IsOctets(cert.rr, 32) /\ IsOctets(cert.x2, 64)
     /\ Less(cert.rl, P256p) /\ Less(cert.rr, P256p)
-    /\ LET lhs == Norm(AddC(Conv(y, y), Scale(3, x)), 66)
-           x2  == Norm(Conv(x, x), 64)
-           rhs == Norm(AddC(Conv(x2, x), P256b), 98)
-       IN  /\ lhs # Bottom /\ lhs = Norm(AddC(Conv(cert.ql, P256p), cert.rl), 66)
-           /\ rhs # Bottom /\ rhs = Norm(AddC(Conv(cert.qr, P256p), cert.rr), 98)
+    /\ SameNumber(AddC(Conv(y, y), Scale(3, x)), AddC(Conv(cert.ql, P256p), cert.rl), cert.ca)
+    /\ SameNumber(Conv(x, x), cert.x2, cert.cb)
+    /\ SameNumber(AddC(Conv(cert.x2, x), P256b), AddC(Conv(cert.qr, P256p), cert.rr), cert.cc)
 \* valid public key: both coordinates are field elements and the curve equation holds
 \* (the "point at infinity" encoding (0, 0) fails the equation because b # 0)
 ValidP256(x, y, cert) == Less(x, P256p) /\ Less(y, P256p) /\ cert.rl = cert.rr
